@@ -21,6 +21,12 @@ from eliot import start_action, register_exception_extractor, current_action, lo
 
 ID = "C03"
 CASE_TIMEOUT = 300  # a logging call that does not return within 5 min is reported as a hang (generous: a loaded machine must not produce one)
+
+
+def CASE_TIMEOUT_FOR(case):
+    """Concurrent cases are whole schedule explorations (seconds under load); a sequential case takes
+    well under a millisecond, so 45 s is ample."""
+    return 300 if case and case[0] == "conc" else 45
 LEVEL = "exploration"
 SHARDS = 4
 RULE = (
